@@ -79,12 +79,14 @@ func (m *Map[K, V]) LoadAndDelete(key K) (V, bool) {
 	return value, ok
 }
 
-// LoadAndDelete loads and deletes the value for the key.
+// LoadAndDeleteAll loads and deletes all values. The returned map is a copy owned by the caller:
+// the internal map is emptied in place, so that an iteration in progress (Range) never continues
+// on a map that is no longer protected by the mutex.
 func (m *Map[K, V]) LoadAndDeleteAll() map[K]V {
 	m.mutex.Lock()
-	data := m.data
-	m.data = make(map[K]V)
-	m.mutex.Unlock()
+	defer m.mutex.Unlock()
+	data := maps.Clone(m.data)
+	clear(m.data)
 	return data
 }
 
